@@ -16,11 +16,12 @@ def run(ctx):
             raise vlib.MachineryError("RetryModel.tla violates %s" % r.violation)
     # several datagrams read by one processing call
     batch = {"module": "GenBatch.tla", "cfg": "GenBatch.cfg", "name": "batch"}
+    tcpfail = {"module": "GenTcpFail.tla", "cfg": "GenTcpFail.cfg", "name": "tcpfail"}   # write failures on TCP connections
     if ctx.quick:
-        gens = [{"module": "Gen_C09.tla", "cfg": "Gen_C09_quick.cfg", "name": "bfs"}, batch]
+        gens = [{"module": "Gen_C09.tla", "cfg": "Gen_C09_quick.cfg", "name": "bfs"}, batch, tcpfail]
     else:
         gens = [{"module": "Gen_C09.tla", "cfg": "Gen_C09_thorough.cfg", "name": "bfs"},
-                {"module": "Gen_C09.tla", "cfg": "Gen_C09_sim.cfg", "name": "sim", "simulate": 2000, "depth": 14}, batch]
+                {"module": "Gen_C09.tla", "cfg": "Gen_C09_sim.cfg", "name": "sim", "simulate": 2000, "depth": 14}, batch, tcpfail]
     simlib.engine_check(ctx, gens, FACETS, labels=LABELS, selftests=mutators.RETRY)
     extra(ctx)
 
